@@ -61,6 +61,10 @@ def fingerprint(fnode):
             elif isinstance(n, (ast.For, ast.While, ast.If, ast.Try,
                                 ast.With, ast.Return)):
                 c['stmt:' + type(n).__name__] += 1
+            elif isinstance(n, (ast.Yield, ast.YieldFrom)):
+                # a generator (context manager) is never another spelling
+                # of a plain function
+                c['kind:yield'] = 1
     return c
 
 
@@ -137,6 +141,8 @@ def match(missing, extra, table, cross=False):
         ref = collections.Counter(table[m]['fp'])
         for q, fp in fps.items():
             if ('>' in q) != ('>' in m) and not cross:
+                continue
+            if bool(ref.get('kind:yield')) != bool(fp.get('kind:yield')):
                 continue
             scored.append((similarity(ref, fp), m, q))
     scored.sort(reverse=True)
